@@ -33,7 +33,7 @@ CLAIMS = {
          "DESIGN.md 4 (C03, stage G)"),
  "C05": ("For every engine and 5 fixture routes covering path/query/header/form locations, int/uint/int64/int8/bool/string/[]string/enum/pointer/context parameters: for every symbolic request (presence bits, values of up to 2 (thorough 3) bytes over digits, signs and letters, plus numerals around 2^32 and 2^63) "
          "the controller receives position by position the value at the declared location converted to the declared type (reference numeral parsers written from the type's range; numerals around 2^31 for int, 2^32 for uint, 2^63 for int64), a missing non-pointer/path parameter or a non-convertible value is answered 422 without invoking the method, missing pointer parameters arrive as nil, context parameters are non-nil.",
-         "Bounds as coded in harness-g/verifgen/cross/zz_verif_c05.go. strconv is interpreted from source. float32/float64 parameters on concrete candidate texts around the edges of both widths (strconv's verdict for the declared width is the reference). Outside: go-playground validator rules other than `required` (stub), JSON body decoding beyond the cases of C12, percent-decoding and header canonicalisation inside the real frameworks.",
+         "Second part of the check (rendering side, harness/.../generator/routes/zz_verif_c09.go: vh_C05_front_validation_rules_Q): for 8 validation rules incl. quotes, angle brackets, ampersand and backslash on a query, header or body parameter, the handler rendered by the real generator (interpreted, all five engines, natively replayed) hands the validator exactly the declared rule text. Bounds as coded in harness-g/verifgen/cross/zz_verif_c05.go. strconv is interpreted from source. float32/float64 parameters on concrete candidate texts around the edges of both widths (strconv's verdict for the declared width is the reference). Outside: go-playground validator rules other than `required` (stub), JSON body decoding beyond the cases of C12, percent-decoding and header canonicalisation inside the real frameworks.",
          "DESIGN.md 4 (C05, stage G)"),
  "C12": ("For each of the 9 fixture routes (floating point parameters on concrete candidate texts), one shared symbolic request (every location absent/empty/malformed/valid), shared callback answers and shared controller outcome (value or error) are run through the five generated handlers inside one path: same controller method with equal arguments (or none), same status, same JSON body as the gin router. "
          "One recorded finding (fiber treats an empty header value as absent) is reported as KNOWN-FINDING.",
@@ -118,11 +118,11 @@ CLAIMS = {
          "Bounds as coded in harness/.../core/annotations/zz_verif_c18.go and generator/swagen/zz_verif_front.go. Outside: several controllers per file and several files in the diagnostics harness, the command's error text.",
          "DESIGN.md 4 (C18)"),
  "C09": ("The whole route generator is interpreted by the engine - controller source text (go/parser, go/types), the real visitors and GleecePipeline.Run, GenerateRoutes with the embedded handlebars templates, the raymond lexer/parser/evaluator (reflection model), the template helpers and OptimizeImportsAndFormat - over symbolic choices of the project's shape, one concrete file per path, every path within the bound explored: "
-         "one route x 17 parameter types x query/header/path, 14 body types, 20 result shapes (with and without response validation), generation flags x security x package name with enum parameters and enum-bearing models, a context.Context parameter in any position, form fields, two controllers of one package, 11 schema names and 11 route texts with quotes, backslashes, spaces and non-ASCII letters, every file-system failure (engine-only), pairs of 8 (thorough 12) parameter names incl. snake case, capitals and the handler's own local names, two routes sharing type and parameter names across two packages - each for all five engines. "
+         "one route x 17 parameter types x query/header/path, 14 body types, 20 result shapes (with and without response validation), generation flags x security x package name with enum parameters and enum-bearing models, a context.Context parameter in any position, form fields, two controllers of one package, 8 validation rules, 11 schema names and 11 route texts with quotes, backslashes, spaces and non-ASCII letters, every file-system failure (engine-only), pairs of 8 (thorough 12) parameter names incl. snake case, capitals and the handler's own local names, two routes sharing type and parameter names across two packages - each for all five engines. "
          "Decided in the engine on every path: a file is written iff generation reports success; the file parses, is in the configured package, imports the configured engine, every import alias is a valid identifier, import names are unique, every import is used, nothing is selected through a name that is neither declared nor imported, every controller method is called, gofmt accepts the file and changes nothing but blank lines and import order. "
          "Decided by the native replay of every explored path of the quick tier (at most 200 per harness otherwise): the same bytes are produced by the real build (text compared), and the file type-checks (go/types) together with the project's packages against the real gin/echo/mux/fiber/chi, validator and gleece runtime packages and an authorization package of the documented signature. "
          "Alias kernel (symbolic text): for symbolic parameter/result names (1-2 bytes), serials and packages the aliases getImports builds are valid identifiers and coincide only for equal kind, serial and name. "
-         "Four recorded findings (blank-line collapse after gofmt; map-typed body; map-typed result; slice-of-pointers body) are reported as KNOWN-FINDING; three defects were repaired (enum-typed body, 994e081; parameter names meeting after camel-casing are now refused, 12c1cbc; schema names that escape a string literal are now refused, 92fcbce - the harnesses assert the refusals).",
+         "Four recorded findings (blank-line collapse after gofmt; map-typed body; map-typed result; slice-of-pointers body) are reported as KNOWN-FINDING; four defects were repaired (enum-typed body, 994e081; parameter names meeting after camel-casing are now refused, 12c1cbc; schema names that escape a string literal are now refused, 92fcbce - the harnesses assert the refusals; validation rules are emitted as Go string literals, fd1c4fb).",
          "Bounds as coded in harness/.../generator/routes/zz_verif_c09.go (+ zz_verif_c09_native.go) and core/pipeline/zz_verif_c09.go. The symbolic dimension is the finite shape of the project; the rendered text is concrete on every path, so the solver decides path feasibility and the alias kernel, not properties of unbounded text. "
          "Host calls on concrete operands (same library versions as /repo's build): regexp matching of the template lexer, golang.org/x/tools/imports.Process (runs the go command) and go/format.Source. Type-checking needs the real packages' export data (go list) and is native-only: a path that is not replayed has only the engine-side verdicts. "
          "Outside: user template overrides/extensions, projects of more than one controller package, compile-time behaviour of the real frameworks beyond type-checking (vet, linking).",
